@@ -333,7 +333,8 @@ MigPart(key) ==
      dm \in {[kind |-> "none", a |-> 0, b |-> 0], [kind |-> "l2", a |-> 5, b |-> 5], [kind |-> "l2", a |-> 3, b |-> 3],
              [kind |-> "l2", a |-> 7, b |-> 3], [kind |-> "l1", a |-> 3, b |-> 3], [kind |-> "l1", a |-> 5, b |-> 2],
              [kind |-> "l2", a |-> 2, b |-> 6], [kind |-> "l1", a |-> 7, b |-> 1], [kind |-> "l1", a |-> 1, b |-> 7],
-             [kind |-> "l2", a |-> 9, b |-> 2], [kind |-> "l2", a |-> 2, b |-> 9], [kind |-> "l1", a |-> 4, b |-> 2]}}
+             [kind |-> "l2", a |-> 9, b |-> 2], [kind |-> "l2", a |-> 2, b |-> 9], [kind |-> "l1", a |-> 4, b |-> 2],
+             [kind |-> "l2", a |-> 4, b |-> 4], [kind |-> "l2", a |-> 6, b |-> 6]}}
 MigHoldsIntended(c) == \A i \in MigActiveTargets(c) : MigFastIntended(c, c.tgt[i]) = MigRef(c, c.tgt[i])
 MigDeviations(c) == {MigDeviation(c, c.tgt[i]) : i \in {j \in MigActiveTargets(c) : MigDecided(c, c.tgt[j])}} \ {"none"}
 MigEmit(c) ==
